@@ -85,7 +85,7 @@ def record_shard(ctx, bdir, sh):
     while first < nexec and len(aborts) <= sh.get("max_aborts", 12):
         part = ctx.path(f"tr_{sh['name']}_{len(parts)}.ndjson")
         rc, _, err = vlib.run_harness(ctx, bdir, "emitfuzz", ["record", part, arch, em, base, first, nexec - first, calls, mode],
-                                      timeout=1500, env={"ASAN_OPTIONS": ASAN, "UBSAN_OPTIONS": UBSAN, "VERIF_SEED": ctx.seed})
+                                      timeout=420 if ctx.quick else 1500, env={"ASAN_OPTIONS": ASAN, "UBSAN_OPTIONS": UBSAN, "VERIF_SEED": ctx.seed})
         parts.append(part)
         if rc == 0:
             break
